@@ -16,14 +16,13 @@ RULE = ("cases = generated design specs K1-K11 that RandomGen accepts; non-trivi
         "distinct = distinct spec hashes")
 ASSUMPTIONS = ["reference model R (vlib/ref.py) is the documented semantics inside its decidable region"]
 MINIMUMS = {"quick": {"compared": 110, "compared_nonempty": 50, "count_checked": 25, "sequences_compared": 1500},
-            "thorough": {"compared": 1500, "compared_nonempty": 700, "count_checked": 350,
-                         "sequences_compared": 25000}}
+            "thorough": {"compared": 385, "compared_nonempty": 175, "count_checked": 87, "sequences_compared": 5250}}
 CASE_TIMEOUT = 150
 CAP = 600
 
 
 def cases(tier, seed):
-    return D.spec_cases(tier, seed, None, 400, 5500, "c06")
+    return D.spec_cases(tier, seed, None, 400, 2200, "c06")
 
 
 def run_case(case):
